@@ -189,7 +189,7 @@ prop('C13',
           'interactive parsers: feed_token (in place / ImmutableInteractiveParser.feed_token), copy(), as_immutable(), as_mutable(), switching a fork to another sequence with the same consumed prefix, accepts() vs trial feeding of '
           'every terminal; then every cursor is finished in random order (immutable ones twice, after all others ran). Every result (tree with all meta fields incl. container_*) or error index must equal parse() of the cursor\'s own '
           'sequence. Non-trivial = more than 2 cursors; distinct by canonical hash of the operation log. After every operation the state stack is compared with a reference stepper over lark\'s own table and with the Lean reduceLoop/reductionsOn (driver op lr_feed); a cursor whose feed raised goes on from its error state with the offending token dropped and must end as stepping the table does. Lexer-driven forks: parse_interactive(text) advanced half way, as_immutable()/copy(), exhaust_lexer in random order, each must end with parse(text).',
-     not_proved=['that copy() (deep copy of the value stack) establishes the disjointness hypothesis of fork_independent is observed (results compared), not proved; Tree meta sharing was the one violation (F10, fixed)',
+     not_proved=['that a deep copy establishes the disjointness hypothesis of fork_independent is proved for the model of deepcopy (deepcopy_is_fresh_and_equal: fresh objects, old ones untouched, same denotation); that Python\'s copy.deepcopy / Tree.__deepcopy__ is that function is observed: freshness (no shared Tree, child list or Meta by id) and equality of the stacks on every generated copy(); Tree meta sharing was the one violation (F10, fixed)',
                  'accepts() exactness is compared with trial feeding here and with the model driver in the C02 check'],
      assumptions=['copy.deepcopy on lists/Trees/Tokens copies every reachable mutable list'],
      level_text='Theorems (heap model with mutable child lists): a state\'s denotation depends only on reachable list objects; an in-place extension of a child list by one fork leaves every fork with disjoint reachable objects '
